@@ -378,7 +378,7 @@ example : Reach (contentChecker (exEnv [[a5, a2, b3, c1], [a5, b3, c1]] false)) 
     retains, with every digest consistent, is accepted: the inputs left when the outputs are
     exhausted go to the computed discard unexamined.  The same drop before the last output is "data
     loss"; with the inputs left over compared with the collector too
-    (fixes/c04-verify-gc-tail.diff, `tailChecked`), so is this one. -/
+    (a variant of verify_gc tried in a scratch copy, not in /repo, `tailChecked`), so is this one. -/
 theorem gc_tail_loss_accepted :
     (verifyFragment (exEnv [[a5, a2, b3, c1], [a5, b3]] false) 0 (exFrag [a5, a2, b3, c1] [a5, b3])).toOption
         = some (setsumOf (opsOf intGrp) exH [a5, b3])
